@@ -206,9 +206,9 @@ def flatten_xor(e):
         return flatten_xor(e[2]) + flatten_xor(e[3])
     if e[0] == 'int' and e[1] == 0:
         return []
-    if e[0] == 'ite' and len(e[2]) == 2:
+    if e[0] == 'ite' and len([1 for _, x in e[2] if x != ('never',)]) == 2:
         cond = e[1]
-        (v0, e0), (v1, e1) = e[2]
+        (v0, e0), (v1, e1) = [(v, x) for v, x in e[2] if x != ('never',)]      # an exhaustive `match` adds an unreachable arm
         t0, t1 = flatten_xor(e0), flatten_xor(e1)
         common = []
         r1 = list(t1)
@@ -298,7 +298,8 @@ def r3(ctx, rule='C08.R3'):
     epsq = ('field', ('variant', ('field', SELF, 'en_passant'), 'Some'), '0')
     fidx = ('cast', ('discr', call(GETFILE, epsq)), 'usize')
     def ep_term(x):
-        if x[0] == 'when' and x[1] == ('discr', ('field', SELF, 'en_passant')) and x[2] == 0 and x[3] is False:     # present iff Some
+        if x[0] == 'when' and x[1] == ('discr', ('field', SELF, 'en_passant')) and \
+                [((d == x[2]) == bool(x[3])) for d in (0, 1)] == [False, True]:     # present iff Some (None = 0, Some = 1), however spelled
             return match(('index', ('index', ('constdef', Z + 'ZOBRIST_EP', ANY), cidx(V('c'))), fidx), x[4])
         return None
     m = take(ep_term)
